@@ -53,6 +53,23 @@ def run_case(ctx, case):
                     rec.violation("non-zero outside [u_i, u_(i+j+1)]", case, j=j, i=i, u=str(u))
             if j == p and sum(vals) != 1:
                 rec.violation("top-degree functions do not sum to one", case, u=str(u), observed=str(sum(vals)))
+    # float parameters on exact knots: the float nearest to a rational knot lies on one definite side of it
+    for k in knots[1:-1]:
+        uf = float(k)
+        ue = frac(uf)
+        if ue == k:
+            continue
+        for j in range(p + 1):
+            r = impl(lambda: f[:, j](uf))
+            spec = drv.call("cdb.row", U, W, j, ue)
+            l3(rec, "cdb-float-parameter")
+            if r[0] != "ok":
+                rec.violation("basis evaluation raised at a float parameter inside the interval", case, j=j, u=repr(uf), observed=r[1])
+                continue
+            vals = tuple(frac(x) for x in r[1])
+            if any(abs(a - b) > F(1, 10**9) for a, b in zip(vals, spec[1])):
+                rec.violation("F[i,j](u) at the float next to a knot differs from Cox-de Boor", case, j=j, u=repr(uf),
+                              observed=ser(vals), expected=ser(tuple(spec[1])))
     # index semantics at one parameter
     u = us[len(us) // 2]
     full = impl(lambda: f[:, p](u))
@@ -151,4 +168,4 @@ def run(ctx):
         U = rand_kv(rng, bigknots=big, force_zero=(i % 8 == 0))
         p, n, _ = kv_info(U)
         W = rand_weights(rng, n, rng.choice(["none", "none", "pos", "const"]))
-        run_case(ctx, ser(dict(kind="basis", U=U, W=W, us=params_for(rng, U, extra=2))))
+        run_case(ctx, ser(dict(kind="basis", U=U, W=W, us=params_for(rng, U, extra=2) + hair_params(U))))
